@@ -1206,6 +1206,324 @@ def f_eof_spin_serial():
     return n < 100, f"{n} non-suspending read() calls after EOF (spin)"
 
 
+# ---------------------------------------------------------------- round 4
+YD_LINE = b"00:01:54.430 R 15F11910 00 00 00 E5 0B 1D FF FF\r\n"
+
+
+def _fake_text_client(cls_name="YachtDevicesNmea2000Gateway", **kw):
+    """a text client over a fake link: returns (module, opened readers list, make())"""
+    import nmea2000.ioclient as io_
+    opened = []
+
+    async def fake_open(host, port):
+        rd = asyncio.StreamReader()
+        w = _FakeWriter()
+        opened.append((rd, w))
+        return rd, w
+    io_.asyncio.open_connection = fake_open
+    return io_, opened, (lambda: getattr(io_, cls_name)("h", 1, **kw))
+
+
+def _with_real_open(fn, timeout=8.0):
+    import asyncio as _a
+    real_open = _a.open_connection
+    try:
+        return _run(fn(), timeout=timeout)
+    finally:
+        _a.open_connection = real_open
+
+
+async def _cancelled_error():
+    t = asyncio.ensure_future(asyncio.sleep(10))
+    t.cancel()
+    await t
+
+
+@finding("C13/no-recovery/status-callback-cancelled", "C13")
+def f_status_cancelled_recovery():
+    """a status callback that lets CancelledError escape (it awaited something cancelled) while DISCONNECTED is reported killed the receive
+    task before it scheduled the reconnect: the client stayed DISCONNECTED for ever although the gateway accepts"""
+    async def main():
+        io_, opened, make = _fake_text_client()
+        c = make()
+        log, got = [], []
+
+        async def st(s):
+            log.append(s.name)
+            if s.name == "DISCONNECTED":
+                await _cancelled_error()
+
+        async def cb(m):
+            got.append(m.PGN)
+        c.set_status_callback(st)
+        c.set_receive_callback(cb)
+        await c.connect()
+        opened[0][0].feed_eof()
+        await asyncio.sleep(1.5)
+        if len(opened) > 1:
+            opened[1][0].feed_data(YD_LINE)
+            await asyncio.sleep(0.05)
+        state = c.state.name
+        await c.close()
+        return log, state, len(opened), got
+    log, state, n, got = _with_real_open(main)
+    return state == "CONNECTED" and n == 2 and got == [127257], f"status log {log}, state 1.5 s after the fault {state}, connections opened {n}, delivered on the new link {got}"
+
+
+@finding("C14/status-callback-cancelled/close", "C14")
+def f_status_cancelled_close():
+    """a status callback that lets CancelledError escape while CLOSED is reported made close() raise before it shut the link and stopped the
+    background tasks"""
+    async def main():
+        io_, opened, make = _fake_text_client()
+        c = make()
+
+        async def st(s):
+            if s.name == "CLOSED":
+                await _cancelled_error()
+        c.set_status_callback(st)
+        await c.connect()
+        raised = None
+        try:
+            await c.close()
+        except BaseException as e:     # noqa
+            raised = type(e).__name__
+        await asyncio.sleep(0.05)
+        res = (raised, opened[0][1].closed, c._receive_task.done(), c._process_queue_task.done())
+        for t in (c._receive_task, c._process_queue_task):
+            t.cancel()
+        return res
+    raised, shut, rdone, qdone = _with_real_open(main)
+    return raised is None and shut and rdone and qdone, f"close() raised {raised}; link shut {shut}; receive task finished {rdone}; queue task finished {qdone}"
+
+
+@finding("C13/retry-floor/reconnect-per-send", "C13")
+def f_reconnect_per_send():
+    """a gateway that accepts and drops every connection, an application that sends every 50 ms: every failing send started its own reconnect
+    task, the gateway saw an attempt every 50 ms instead of every 0.5 s"""
+    from nmea2000.ioclient import EByteNmea2000Gateway
+    from nmea2000.message import NMEA2000Message, NMEA2000Field
+
+    async def main():
+        times = []
+
+        async def handle(reader, writer):
+            times.append(asyncio.get_event_loop().time())
+            writer.close()
+        server = await asyncio.start_server(handle, "127.0.0.1", 0)
+        port = server.sockets[0].getsockname()[1]
+        c = EByteNmea2000Gateway("127.0.0.1", port)
+        await c.connect()
+        msg = NMEA2000Message(PGN=59904, id="isoRequest", priority=6, source=1, destination=255, fields=[NMEA2000Field(id="pgn", value=60928, raw_value=60928)])
+        for _ in range(60):
+            await c.send(msg)
+            await asyncio.sleep(0.05)
+        await c.close()
+        server.close()
+        return times
+    times = _run(main(), timeout=30)
+    gaps = [b - a for a, b in zip(times, times[1:])]
+    return len(times) <= 8 and (not gaps or min(gaps) > 0.4), f"{len(times)} connection attempts in 3 s, smallest gap {min(gaps) if gaps else None}"
+
+
+@finding("C19/send-blocked/replaced-link", "C19")
+def f_send_blocked_replaced_link():
+    """a sender suspended in drain() on a link whose peer stopped reading; the peer half-closes, the client reconnects without shutting the old
+    link: the stuck sender kept the send lock for ever and a message sent on the new, healthy link was never written"""
+    from nmea2000.ioclient import EByteNmea2000Gateway, State
+    from nmea2000.message import NMEA2000Message, NMEA2000Field
+
+    def req(pgn):
+        return NMEA2000Message(PGN=59904, id="isoRequest", priority=6, source=1, destination=255, fields=[NMEA2000Field(id="pgn", value=pgn, raw_value=pgn)])
+
+    async def main():
+        conns = []
+
+        async def handle(reader, writer):
+            rec = {"w": writer, "data": bytearray(), "read": len(conns) > 0}
+            conns.append(rec)
+            while True:
+                if rec["read"]:
+                    d = await reader.read(65536)
+                    if not d:
+                        return
+                    rec["data"] += d
+                else:
+                    await asyncio.sleep(0.05)       # the first link's peer does not read
+        server = await asyncio.start_server(handle, "127.0.0.1", 0)
+        port = server.sockets[0].getsockname()[1]
+        c = EByteNmea2000Gateway("127.0.0.1", port)
+        await c.connect()
+        old = c.writer
+        stop = [False]
+
+        async def sender_a():
+            while not stop[0] and c.writer is old:
+                await c.send(req(60928))
+        a = asyncio.create_task(sender_a())
+        for _ in range(200):
+            await asyncio.sleep(0.05)
+            if c._send_lock.locked() and old.transport.get_write_buffer_size() > 0:
+                break
+        await asyncio.sleep(0.2)
+        conns[0]["w"].write_eof()                   # half-close without reading what is pending
+        for _ in range(100):
+            await asyncio.sleep(0.05)
+            if c.state == State.CONNECTED and c.writer is not old:
+                break
+        stop[0] = True
+        reconnected = c.state == State.CONNECTED and c.writer is not old
+        b = asyncio.create_task(c.send(req(126996)))
+        done, _ = await asyncio.wait([b], timeout=3)
+        await asyncio.sleep(0.3)
+        got = bytes(conns[1]["data"]) if len(conns) > 1 else b""
+        exp = b"".join(c.encoder.encode_ebyte(req(126996)))
+        a.cancel()
+        b.cancel()
+        old_open = old.transport is not None and not old.transport.is_closing()
+        await c.close()
+        server.close()
+        return reconnected, bool(done), got.endswith(exp) and len(exp) > 0, old_open
+    reconnected, done, ok, old_open = _run(main(), timeout=40)
+    return reconnected and done and ok and not old_open, (f"reconnected {reconnected}; send() on the new link returned within 3 s: {done}; its packet arrived: {ok}; "
+                                                          f"the replaced link is still open: {old_open}")
+
+
+@finding("C15/dump/client-close", "C15")
+def f_client_dump_close():
+    """a gateway client with dump_to_file: after client.close() the dump file lacked the delivered messages (the client never closed its decoder,
+    the buffered file was written only when the object was garbage collected)"""
+    async def main():
+        with tempfile.TemporaryDirectory() as td:
+            fn = os.path.join(td, "d.jsonl")
+            io_, opened, make = _fake_text_client(dump_to_file=fn)
+            c = make()
+            got = []
+
+            async def cb(m):
+                got.append(m)
+            c.set_receive_callback(cb)
+            await c.connect()
+            for _ in range(5):
+                opened[0][0].feed_data(YD_LINE)
+            await asyncio.sleep(0.1)
+            await c.close()
+            lines = open(fn).read().splitlines()
+            same = [json.loads(l)["PGN"] for l in lines] == [m.PGN for m in got]
+            return len(got), len(lines), same, c        # (c is returned so that it is still referenced when the file is read)
+    n, k, same, _c = _with_real_open(main)
+    return n == 5 and k == 5 and same, f"{n} messages delivered, dump file after client.close(): {k} lines"
+
+
+@finding("C15/dump/non-utf8-locale", "C15")
+def f_dump_locale():
+    """dump file opened in the locale's encoding: under an ASCII locale a message with non-ASCII text made decode_*() raise as soon as dumping
+    was switched on (run in a child interpreter with LC_ALL=C, UTF-8 mode off)"""
+    import subprocess
+    prog = r"""
+import sys, json, tempfile, os, logging
+sys.path.insert(0, sys.argv[1])
+logging.disable(logging.CRITICAL)
+from nmea2000.decoder import NMEA2000Decoder
+text = 'h\u00e9llo'.encode('utf-8')
+# PGN 126998 configuration information: three STRING_LAU fields (length, encoding 1 = ASCII/UTF-8, bytes)
+p = bytes([len(text) + 2, 1]) + text + bytes([2, 1]) + bytes([2, 1])
+line = '2024-01-01-00:00:00.000,6,126998,1,255,%d,%s' % (len(p), ','.join('%02x' % b for b in p))
+plain = NMEA2000Decoder().decode_basic_string(line, already_combined=True)
+with tempfile.TemporaryDirectory() as td:
+    fn = os.path.join(td, 'd.jsonl')
+    d = NMEA2000Decoder(dump_to_file=fn)
+    try:
+        m = d.decode_basic_string(line, already_combined=True)
+        err = None
+    except Exception as e:
+        m, err = None, type(e).__name__
+    d.close()
+    data = open(fn, 'rb').read()
+ok = err is None and m is not None and data.decode('utf-8').strip() != '' and json.loads(data.decode('utf-8'))['fields'][0]['value'] == plain.fields[0].value
+print(json.dumps({'ok': ok, 'err': err, 'plain': plain.fields[0].value}))
+"""
+    env = dict(os.environ, LC_ALL="C", LANG="C", PYTHONUTF8="0", PYTHONCOERCECLOCALE="0")
+    r = subprocess.run([sys.executable, "-c", prog, REPO], env=env, stdout=subprocess.PIPE, stderr=subprocess.PIPE, text=True, timeout=60)
+    try:
+        d = json.loads(r.stdout.strip().splitlines()[-1])
+    except Exception:
+        return False, f"child failed: {r.stderr[-300:]}"
+    return d["ok"], f"under LC_ALL=C: decode with dumping raised {d['err']}; text decoded without dumping: {d['plain']!r}"
+
+
+@finding("C06/message-trip/actisense/out-of-range-addressing", "C06")
+def f_actisense_out_of_range():
+    """encode_actisense skipped the addressing checks of the other formats and masked instead: source 300 was accepted and decodes as 44"""
+    from nmea2000.encoder import NMEA2000Encoder
+    bad = []
+    for attr, v in (("source", 300), ("destination", 256), ("source", -1), ("priority", 22)):
+        m = _dec().decode_actisense_string("A000001.000 23FF6 0EA00 00EE00")
+        setattr(m, attr, v)
+        try:
+            line = NMEA2000Encoder().encode_actisense(m)
+        except ValueError:
+            continue
+        r = _dec().decode_actisense_string("A000001.000 " + line)
+        if getattr(r, attr) != v:
+            bad.append(f"{attr}={v} accepted, decodes as {getattr(r, attr)}")
+    return not bad, "; ".join(bad) or "out-of-range addressing is refused"
+
+
+@finding("C12/delivery/cut-off-line", "C12")
+def f_cut_off_line():
+    """the stream ends in the middle of a line: readline() hands out the fragment, the text clients decoded and delivered it as a packet"""
+    async def main():
+        out = []
+        for cls, frag in (("YachtDevicesNmea2000Gateway", b"00:01:54.430 R 15F11910 00 00 00 E5 0B 1"), ("ActisenseNmea2000Gateway", b"A000057.055 09FF7 0FF00 3F9FDCFFFFFF")):
+            io_, opened, make = _fake_text_client(cls)
+            c = make()
+            got = []
+
+            async def cb(m, got=got):
+                got.append([f.value for f in m.fields])
+            c.set_receive_callback(cb)
+            await c.connect()
+            opened[0][0].feed_data(frag)
+            opened[0][0].feed_eof()
+            await asyncio.sleep(0.1)
+            await c.close()
+            out.append((cls, got))
+        return out
+    out = _with_real_open(main)
+    bad = [(c, g) for c, g in out if g]
+    return not bad, f"messages delivered for a packet that never arrived completely: {bad}" if bad else "fragments at the end of the stream are not delivered"
+
+
+@finding("C12/delivery/callback-exception-str", "C12")
+def f_callback_badstr():
+    """a receive callback raising an exception whose __str__ raises: the except handler's own f-string raised, the consumer task ended and no
+    later message was delivered"""
+    class Bad(Exception):
+        def __str__(self):
+            raise RuntimeError("no text")
+
+    async def main():
+        io_, opened, make = _fake_text_client()
+        c = make()
+        calls = []
+
+        async def cb(m):
+            calls.append(m.PGN)
+            if len(calls) == 2:
+                raise Bad()
+        c.set_receive_callback(cb)
+        await c.connect()
+        for _ in range(5):
+            opened[0][0].feed_data(YD_LINE)
+            await asyncio.sleep(0.02)
+        n = len(calls)
+        await c.close()
+        return n
+    n = _with_real_open(main)
+    return n == 5, f"callback invoked {n} times for 5 lines"
+
+
 def run(keys=None):
     out = {}
     for k, (prop, fn) in FINDINGS.items():
